@@ -789,9 +789,9 @@ fn plan(prop: &str, thorough: bool) -> Vec<(Profile, &'static str, usize, usize,
     // (profile, stream name, histories, min len, max len)
     match (prop, thorough) {
         ("C05", false) => vec![(Profile::Clean, "clean", 90, 4, 22), (Profile::Dirty, "dirty", 80, 4, 20)],
-        ("C05", true) => vec![(Profile::Clean, "clean", 1700, 4, 60), (Profile::Dirty, "dirty", 1700, 4, 50)],
+        ("C05", true) => vec![(Profile::Clean, "clean", 800, 4, 60), (Profile::Dirty, "dirty", 800, 4, 50)],
         (_, false) => vec![(Profile::Failing, "failing", 110, 3, 14), (Profile::Clean, "clean", 30, 3, 14), (Profile::Dirty, "dirty", 20, 3, 14)],
-        (_, true) => vec![(Profile::Failing, "failing", 2400, 3, 30), (Profile::Clean, "clean", 500, 3, 30), (Profile::Dirty, "dirty", 400, 3, 30)],
+        (_, true) => vec![(Profile::Failing, "failing", 1100, 3, 30), (Profile::Clean, "clean", 250, 3, 30), (Profile::Dirty, "dirty", 250, 3, 30)],
     }
 }
 
